@@ -400,7 +400,11 @@ func (t *taskTrace) Do(options ...DoOption) {
 	}
 
 	response := newDoOption(options...)
-	t.forward <- *response
+	select {
+	case t.forward <- *response:
+	case <-t.done:
+		// the request was decided while this answer was waiting: it has no effect
+	}
 }
 
 func (t *taskTrace) process() {
